@@ -215,6 +215,14 @@ fn run_case(idx: usize, case: &Value, want_trace: bool, evs: &HashSet<String>) -
           out.trace.push(json!({"ev": "incr", "r2": r2, "inc": graph_json(&world, &inc), "once": graph_json(&world, &once)}));
         });
       }
+      // C19: the configuration (type imports) arrives with a later build of the same roots
+      if evs.contains("incr") && !world.imports.is_empty() {
+        let mut w_noimp = world.clone();
+        w_noimp.imports.clear();
+        let mut inc = build(&w_noimp, kind_of(kind), &world.roots, &bo);
+        build_on(&world, &mut inc, &world.roots, &bo);
+        out.trace.push(json!({"ev": "incr", "r2": "-imports-", "inc": graph_json(&world, &inc), "once": graph_json(&world, &g)}));
+      }
       if evs.contains("incr") {
         let mut again = g.clone();
         build_on(&world, &mut again, &world.roots, &bo);
